@@ -1121,7 +1121,7 @@ pub(crate) fn stub_fsinfo_deserialize<R: Read>(_rdr: &mut R) -> Result<FsInfoSec
     }
 }
 
-// @obl props=C07,C13 tier=quick fns=FileSystem::new,BootSector::validate,FsInfoSector::validate_and_fix timeout=900
+// @obl props=C05,C07,C12,C13 tier=thorough fns=FileSystem::new,BootSector::validate,FsInfoSector::validate_and_fix timeout=3000
 // @desc FileSystem::new with the two sector decoders replaced by their contracts (ANY decoded boot sector, ANY decoded FS-info), strict and non-strict, write-forbidden device: Ok or Err(CorruptedFileSystem); never panics or overflows; never writes; on Ok the cached FAT type / first data sector / root sectors / cluster count are the BPB-derived ones (whose correctness is validate_sound / derived_equal_independent); the FS-info write-back latch is CLEAR (so a read-only session ending in unmount writes nothing); the cached free count is dropped if the dirty bit was set and is otherwise <= total clusters; the hint lies in [2, total+2]; FAT12/16 volumes carry no FS-info values; the in-memory status flags are the decoded status byte
 #[kani::proof]
 #[kani::unwind(6)]
